@@ -15,8 +15,9 @@ CONSTANTS
   B5 = 0
   MaxChain = 1
   FnOwn = 0
+  BFn = 4
   EmitAllUpTo = 0
-  Sel = 60
+  Sel = 100
   KeepGoing = TRUE
 INVARIANT Inv
 CHECK_DEADLOCK FALSE
